@@ -11,6 +11,10 @@ IDS="$1"
 MUT_DIR=${MUT_DIR:-/tmp/mutsweep}; mkdir -p $MUT_DIR
 [ -x $MUT_DIR/mutgen ] || (cd /verif/tools/mutgen && go build -o $MUT_DIR/mutgen .) || exit 2
 [ -d $MUT_DIR/base ] || { echo "run tools/mutation_phase1.sh first"; exit 2; }
+# the monitors are built from a snapshot of the harness sources taken now: edits to /verif/harness during the sweep do not disturb it
+rm -rf $MUT_DIR/harness; cp -r /verif/harness $MUT_DIR/harness
+# MUT_CHECKS=n: only the n most relevant checks per mutant (default: all)
+MUT_CHECKS=${MUT_CHECKS:-16}
 for k in $(seq 1 $J); do
   WT=$MUT_DIR/p2slot$k/repo
   git -C /repo worktree remove --force $WT 2>/dev/null; rm -rf $MUT_DIR/p2slot$k; mkdir -p $MUT_DIR/p2slot$k
@@ -34,18 +38,18 @@ one() { # $1 = slot, $2 = id
   file=$(echo "$line" | cut -f1)
   rm -rf $OUT; mkdir -p $OUT/.build
   $MUT_DIR/mutgen apply $MUT_DIR/base $id $WT >/dev/null
-  sed "s#=> /repo#=> $WT#" /verif/harness/go.mod > $OUT/.build/go.mod; cp /verif/harness/go.sum $OUT/.build/go.sum
+  sed "s#=> /repo#=> $WT#" $MUT_DIR/harness/go.mod > $OUT/.build/go.mod; cp $MUT_DIR/harness/go.sum $OUT/.build/go.sum
   verdict=SURVIVOR; by="-"
   tags=verif
-  if ! (cd /verif/harness && go build -modfile=$OUT/.build/go.mod -tags verif -o $OUT/.build/xjsverif ./cmd/xjsverif) 2>/dev/null; then
+  if ! (cd $MUT_DIR/harness && go build -modfile=$OUT/.build/go.mod -tags verif -o $OUT/.build/xjsverif ./cmd/xjsverif) 2>/dev/null; then
     tags=verif_nohooks
-    (cd /verif/harness && go build -modfile=$OUT/.build/go.mod -tags verif_nohooks -o $OUT/.build/xjsverif ./cmd/xjsverif) 2>/dev/null || verdict=harness-build-failed
+    (cd $MUT_DIR/harness && go build -modfile=$OUT/.build/go.mod -tags verif_nohooks -o $OUT/.build/xjsverif ./cmd/xjsverif) 2>/dev/null || verdict=harness-build-failed
   fi
   if [ $verdict = SURVIVOR ]; then
-    for c in $(order_for "$file"); do
+    for c in $(order_for "$file" | tr ' ' '\n' | head -n $MUT_CHECKS); do
       exe=$OUT/.build/xjsverif
       if [ $c = C14 ]; then
-        (cd /verif/harness && go build -modfile=$OUT/.build/go.mod -tags $tags -race -o $OUT/.build/xjsverif-race ./cmd/xjsverif) 2>/dev/null || continue
+        (cd $MUT_DIR/harness && go build -modfile=$OUT/.build/go.mod -tags $tags -race -o $OUT/.build/xjsverif-race ./cmd/xjsverif) 2>/dev/null || continue
         exe=$OUT/.build/xjsverif-race
       fi
       out=$(cd /verif && VERIF_OUT=$OUT VERIF_SEED=${VERIF_SEED:-1} timeout 1800 $OUT/.build/xjsverif check -worker-exe $exe $c quick 2>&1); rc=$?
@@ -60,7 +64,7 @@ one() { # $1 = slot, $2 = id
   rm -rf $OUT
   echo -e "$id\t$verdict\t$by\t$line"
 }
-export -f one order_for; export MUT_DIR
+export -f one order_for; export MUT_DIR MUT_CHECKS
 cat "$IDS" | xargs -P $J -I{} bash -c 'for k in $(seq 1 '$J'); do exec 9>$MUT_DIR/p2slot$k.lock; if flock -n 9; then one $k {}; exit 0; fi; done; sleep 1; exec 9>$MUT_DIR/p2slot1.lock; flock 9; one 1 {}' >> $MUT_DIR/phase2.tsv
 for k in $(seq 1 $J); do git -C /repo worktree remove --force $MUT_DIR/p2slot$k/repo 2>/dev/null; done
 cut -f2 $MUT_DIR/phase2.tsv | sort | uniq -c
